@@ -73,7 +73,18 @@ fn impl_fn(m: &Method, target: usize, deps: &[usize], generic_form: bool, vis: &
     s
 }
 
-pub fn gen_case(t: &mut Tape) -> Case {
+/// (trait method declaration, fn in the block of target `x`) of the borrowed-return method of kind `k`
+fn borrow_method(k: usize, x: usize) -> (String, String) {
+    match k {
+        0 => ("fn tagline(&self, n: u32) -> &str".to_string(), format!("pub fn tagline(deps: &impl Sized, n: u32) -> &str {{ rt::trace(format!(\"X{x}.TL|{{}}|{{}}\", rt::addr(deps), n)); \"X{x}\" }}\n")),
+        1 => ("fn tagline<'a>(&'a self, n: u32) -> &'a str".to_string(), format!("pub fn tagline<'a>(deps: &'a impl Sized, n: u32) -> &'a str {{ rt::trace(format!(\"X{x}.TL|{{}}|{{}}\", rt::addr(deps), n)); \"X{x}\" }}\n")),
+        _ => ("fn tagline<'a>(&self, s: &'a str) -> &'a str".to_string(), format!("pub fn tagline<'a>(deps: &impl Sized, s: &'a str) -> &'a str {{ rt::trace(format!(\"X{x}.TL|{{}}|{{}}\", rt::addr(deps), s)); s }}\n")),
+    }
+}
+
+pub const BORROW_KINDS: [&str; 3] = ["borrow from the receiver (elided lifetime)", "borrow from the receiver (named lifetime)", "borrow from an argument (named lifetime)"];
+
+pub fn gen_case(t: &mut Tape, excl: &[usize]) -> Case {
     let dynamic = t.chance(2, 5);
     let any_async = t.chance(1, 3);
     let use_async_trait = any_async && (dynamic || t.chance(1, 4));
@@ -100,6 +111,9 @@ pub fn gen_case(t: &mut Tape) -> Case {
     if any_async && !methods.iter().any(|m| m.is_async) {
         methods[0].is_async = true;
     }
+    // an extra method that returns a borrow: from the receiver / the dependency (elided or named lifetime) or from an argument
+    let borrow_kind: Option<usize> = if t.chance(1, 3) { Some(t.choose(3)) } else { None };
+    let borrow_kind = borrow_kind.filter(|k| !excl.contains(k));
     let n_targets = t.range(2, 3);
     let at = if use_async_trait { "#[::async_trait::async_trait]\n" } else { "" };
     let trait_attr = if dynamic { "TrImpl, delegate_by = ref".to_string() } else { "TrImpl, delegate_by = DelegateTr".to_string() };
@@ -124,6 +138,9 @@ pub fn gen_case(t: &mut Tape) -> Case {
     for m in &methods {
         src.push_str(&format!("    {};\n", trait_sig(m)));
     }
+    if let Some(k) = borrow_kind {
+        src.push_str(&format!("    {};\n", borrow_method(k, 0).0));
+    }
     src.push_str("}\n");
     let mut max_deps = 0;
     for x in 0..n_targets {
@@ -144,6 +161,9 @@ pub fn gen_case(t: &mut Tape) -> Case {
             max_deps = max_deps.max(deps.len());
             let vis = if t.chance(1, 3) { "pub " } else { "" };
             src.push_str(&format!("    {}", impl_fn(m, x, &deps, t.flip(), vis, not_send_blocks)));
+        }
+        if let Some(k) = borrow_kind {
+            src.push_str(&format!("    {}", borrow_method(k, x).1));
         }
         src.push_str("}\n");
     }
@@ -187,6 +207,17 @@ pub fn gen_case(t: &mut Tape) -> Case {
             src.push_str("    }\n");
         }
     }
+    if let Some(k) = borrow_kind {
+        for a in 0..n_apps {
+            let arg = if k == 2 { "\"arg\"" } else { "77" };
+            src.push_str("    {\n        let _ = rt::take();\n");
+            src.push_str(&format!("        let direct = X{a}::tagline(&app{a}, {arg}).to_string();\n        let t_direct = rt::take();\n"));
+            src.push_str(&format!("/*GEN*/ let via = Tr::tagline(&app{a}, {arg}).to_string();\n        let t_via = rt::take();\n"));
+            src.push_str(&format!("/*GEN*/ rt::expect_eq(&mut fails, \"app{a} borrowed-return method: result through Impl<A{a}> vs X{a}::tagline\", &via, &direct);\n"));
+            src.push_str(&format!("/*GEN*/ rt::expect_eq(&mut fails, \"app{a} borrowed-return method: call trace\", &t_via, &t_direct);\n"));
+            src.push_str("    }\n");
+        }
+    }
     src.push_str("    fails\n}\n");
     let same_sig = methods.windows(2).any(|w| trait_sig(&w[0]).replace(&w[0].name, "") == trait_sig(&w[1]).replace(&w[1].name, ""));
     let same_typed = methods.iter().any(|m| m.params.windows(2).any(|w| w[0].vt == w[1].vt));
@@ -208,6 +239,9 @@ pub fn gen_case(t: &mut Tape) -> Case {
     }
     if n_targets >= 3 {
         classes.push("three_targets");
+    }
+    if let Some(k) = borrow_kind {
+        classes.push(["borrowed_return:receiver_elided", "borrowed_return:receiver_named", "borrowed_return:argument_named"][k]);
     }
     let real: String = src.lines().filter(|l| !l.starts_with("/*TWIN*/")).collect::<Vec<_>>().join("\n");
     let twin: String = src.lines().filter(|l| !l.starts_with("/*GEN*/")).collect::<Vec<_>>().join("\n");
@@ -236,12 +270,13 @@ pub const TAPE_LEN: usize = 160;
 pub fn run(ctx: &mut Ctx) {
     ctx.rule = "cases = a delegated trait (1..4 methods, repeated signatures, adjacent equal types, &mut arguments, sync/async with and without async_trait), static (`delegate_by = DelegateTr`) or \
                 dynamic (`delegate_by = ref`), with 2..3 competing target types each carrying an `#[entrait] impl TrImpl for X_k` block whose fns use 0..4 further entrait dependencies of `Impl<T>` (including two instantiations of one generic trait), \
-                and one application per target; every method is called through Impl<A_k> and directly as `X_k::m(&app, ..)` with distinct values; results and one-entry traces \
+                one optional extra method returning a borrow (from the receiver / dependency with an elided or a named lifetime, or from an argument), and one application per target; every method is called through Impl<A_k> and directly as `X_k::m(&app, ..)` with distinct values; results and one-entry traces \
                 (target tag, fn tag, deps address, args, sum of further dependencies) must agree; non-trivial = >=2 targets and (>=2 methods, >=2 same-typed args or >=1 further dependency); distinct = distinct program text"
         .into();
+    let excl: Vec<usize> = vec![];
     let n = ctx.n(1000, 8000) as usize;
     let tapes = crate::drive::gen_tapes(ctx.seed, 700, n, TAPE_LEN);
-    let cases: Vec<Case> = tapes.iter().map(|tp| gen_case(&mut Tape::new(tp))).collect();
+    let cases: Vec<Case> = tapes.iter().map(|tp| gen_case(&mut Tape::new(tp), &excl)).collect();
     let mut batch = Batch::new("c07", Opts { feature_unimock: false, members: 16, ..Default::default() });
     for (i, c) in cases.iter().enumerate() {
         batch.add(&format!("c{i:05}"), c.src.clone());
